@@ -101,6 +101,7 @@ structure OSt where
   lastDel : Option (Nat × Nat × Bool) := none -- (a, b, ok) of the last delete, checked at next observe
   nHandlers : Nat := 0
   crashes : Nat := 0               -- crash images validated in this case
+  failedAt : List Nat := []        -- heights whose handler failed in the last delete
   modelDel : DelRes := .ok         -- the model's result of the last delete
   preRestart : Option Obs := none  -- synced observation right before a restart (C06 clean restart)
   sinceObs : Nat := 0              -- ops since the last observation
@@ -117,6 +118,17 @@ def parseCalls? (s : String) : Option (List Call) :=
     match c.splitOn "@" with
     | [hi, rest] => match rest.splitOn ":" with
       | [h, r] => do pure { handler := ← hi.toNat?, height := ← h.toNat?, readable := r = "1" }
+      | [h, r, _] => do pure { handler := ← hi.toNat?, height := ← h.toNat?, readable := r = "1" }
+      | _ => none
+    | _ => none
+
+/-- heights at which some handler call failed (`…:e` in the harness log) -/
+def failedHeights (s : String) : List Nat :=
+  if s = "-" then [] else
+  (s.splitOn ",").filterMap fun c =>
+    match c.splitOn "@" with
+    | [_, rest] => match rest.splitOn ":" with
+      | [h, _, "e"] => h.toNat?
       | _ => none
     | _ => none
 
@@ -263,7 +275,10 @@ def storeLine (o : OSt) (line : String) : OSt :=
             else if pre.byh.map (· == 'F') != ob.byh.map (· == 'F') || pre.get != ob.get then o1.flag (.prop "c06_restart_same_headers" "")
             else o1
           | none => o1
-        let o1 := { o1 with lastDel := none, last := some ob, preRestart := none, sinceObs := 0 }
+        -- C14: a header whose handler failed is not removed and remains readable
+        let o1 := if o.lastDel.isSome && o.failedAt.any (fun h => chr ob.byh h != 'F') then
+            o1.flag (.prop "c14_failure_keeps_header" s!"failed at {renderSet o.failedAt}") else o1
+        let o1 := { o1 with lastDel := none, last := some ob, preRestart := none, sinceObs := 0, failedAt := [] }
         -- correspondence
         let m := renderObs o.model o.n o.withRanges
         if m == line then { o1 with cov := o1.cov } else
@@ -277,9 +292,13 @@ def storeLine (o : OSt) (line : String) : OSt :=
       match a.toNat?, b.toNat?, kv? rest "res", (kv? rest "calls").bind parseCalls? with
       | some a, some b, some res, some calls =>
         let ok := res == "ok"
+        let failedAt := failedHeights ((kv? rest "calls").getD "-")
         let o1 := match checkDelete o a b ok calls with
           | some (c, d) => o.flag (.prop c d)
           | none => o
+        -- C14: a handler error (or panic) is returned by DeleteRange
+        let o1 := if ok && !failedAt.isEmpty then o1.flag (.prop "c14_error_returned" s!"failed at {renderSet failedAt} but res=ok") else o1
+        let o1 := { o1 with failedAt := failedAt }
         let o1 := { o1 with lastDel := some (a, b, ok),
                             live := o1.live.filter (fun h => !inRange a b h),
                             dead := if ok then o1.dead ++ (List.range' a (b - a)) else o1.dead }
